@@ -10,7 +10,7 @@ THEOREMS = ['insert_resolves', 'insert_stable', 'insert_existing', 'insert_fresh
             'vga63_idempotent', 'vga63_identity', 'vga63_palette_idempotent', 'vga63_palette_identity',
             'ega_channel_idempotent', 'ega_palette_idempotent', 'ega_roundtrip_total',
             'export_import', 'export_import_hex', 'export_import_pal', 'export_import_gpl', 'export_import_ice',
-            'export_import_txt', 'gpl_unfixed_regex_refuted']
+            'export_import_txt', 'export_import_outside_known', 'known_1_witness', 'gpl_unfixed_regex_refuted']
 SWEEP_LEMMAS = ['PaletteProofs.chan63_sweep (256 byte values x 6 generated channel expression pairs: from63_*/to63_* and ega_from_*/ega_to_*)',
                 'PaletteFilesProofs.dec_sweep / hex2_sweep (print then parse of the 256 channel values through fmt_dec / parse_u32 and fmt_hex2 / hex2)',
                 'PaletteFilesProofs.class_sweep (generated \\d / \\s tables and comment characters on the 103 code points up to f)',
@@ -301,11 +301,16 @@ def search(ctx, broken):
         c = d.get('case') if isinstance(d, dict) else None
         if isinstance(c, str) and c.startswith('pal_exp ') and not c.endswith('…'):
             p = parse_exp_case(c)
-            if p and wf(p): add(c, ('rt', p))
+            if p: add(c, ('rt', p))
         if isinstance(c, str) and c.startswith('pal_ops ') and not c.endswith('…'):
             add('pal_oracle ' + c[len('pal_ops '):], ('ops', None))
     for k in range(ctx.n(1500, 20000)):
         p = gen_palette(rng, allow_nl=False, fmt=FORMATS[k % 5])
+        add(exp_case(p), ('rt', p))
+    # the known class (line feed in a text the format writes): the witness of Props/C16.v known_1_witness, then random members
+    add(exp_case(KNOWN_1_WITNESS), ('rt', KNOWN_1_WITNESS))
+    for k in range(ctx.n(150, 2000)):
+        p = gen_palette(rng, allow_nl=True, fmt=FORMATS[k % 5])
         add(exp_case(p), ('rt', p))
     for k in range(ctx.n(3000, 40000)):
         init, toks, expr, flat = gen_ops(rng)
@@ -327,7 +332,8 @@ def search(ctx, broken):
             want = [0, len(p['cols'])] + [x for col in p['cols'] for x in col]
             if rest != want:
                 got = 'Err' if rest == [1] else '%d colours' % rest[1]
-                failures.append({'signature': '%s-roundtrip-colours-differ' % p['fmt'], 'input': c, 'impl': trunc(rest), 'expected': trunc(want),
+                sig = '%s-roundtrip-colours-differ' % p['fmt'] if wf(p) else KNOWN_1_SIG
+                failures.append({'signature': sig, 'input': c, 'impl': trunc(rest), 'expected': trunc(want),
                                  'detail': 'export_palette(%s) then load_palette gives %s, the palette has %d (title=%r author=%r description=%r)'
                                            % (p['fmt'], got, len(p['cols']), p['title'], p['author'], p['desc'])})
         elif e[0] == 'ops':
@@ -342,8 +348,14 @@ def search(ctx, broken):
     return {'cases': len(cases), 'failures': failures, 'distinct_nontrivial': len({c for c in cases if len(c.split()) > 2}),
             'samples': [cases[0][:300], cases[-3][:300]], 'six_bit_colours_swept': 64 ** 3}
 
+KNOWN_1_SIG = 'metadata-line-feed-roundtrip-colours-differ'
+KNOWN_1_WITNESS = {'fmt': 'gpl', 'title': 'x\n1 2 3 y', 'author': '', 'desc': '', 'cols': [(9, 9, 9)], 'names': {}}
+
 def wf(p):
-    return all('\n' not in s for s in [p['title'], p['author'], p['desc']] + list(p['names'].values()))
+    """negation of the known class KnownC16_1 (Coq: meta_nl_free): no line feed in a text the format writes"""
+    if p['fmt'] in ('hex', 'pal'): return True
+    texts = [p['title'], p['author'], p['desc']] + (list(p['names'].values()) if p['fmt'] == 'ice' else [])
+    return all('\n' not in s for s in texts)
 
 def parse_exp_case(c):
     try:
